@@ -6,6 +6,7 @@ R2 restart-array width mirror of the writer (same threshold, 4/8-byte elements).
 R3 single-byte fast path of decode_entry guarded by all three values < 128.
 R4 parse sequence equals T-format; the reader takes `shared` from the file and never reads
    the writer's restart interval.
+D  rests on: C02 (lookups on independently encoded files go through the reader's lookup path); C03 (seeks on independently encoded files go through the reader's seek path); C16 (decoding of every length and offset) - re-run here as <id>.D.<rule>.
 """
 import re
 from .common import *
@@ -191,3 +192,8 @@ def run(ctx, res):
                 "this code expects (foreign prefix, other writer) is refused or mis-read" % n["field"], g.loc(n))
     if not offenders:
         res.ok("C11.R5", "reader:trailer-statistics-unused", "outside metadata.c and the writer nothing reads the trailer's statistics fields")
+
+    # ---- properties this one rests on (re-run here, labelled <this>.D.<rule>) ------------------
+    depends(ctx, res, 'C02', None, "lookups on independently encoded files go through the reader's lookup path")
+    depends(ctx, res, 'C03', None, "seeks on independently encoded files go through the reader's seek path")
+    depends(ctx, res, 'C16', None, 'decoding of every length and offset')
